@@ -8,7 +8,7 @@ CONSTANTS
   BUF = 3
   MaxSends = @@MAXS@@
   MaxSlow = 5
-  Lims = {"none", "tiny", "edge", "large"}
+  Lims = @@LIMS@@
   Classes = @@CLS@@
   Faults = @@FAULTS@@
   Replace = @@REPL@@
@@ -24,6 +24,10 @@ CONSTANTS
   DevIdleSweep = TRUE
   DevFwdNoEof = TRUE
   SrcKinds = @@SK@@
+  ErrClasses = @@EC@@
+  PollOn = @@POLL@@
+  RetryOn = {}
+  RetryWriteOn = {}
   DevBufio = FALSE
   AttachKinds = @@AK@@
   HoldOn = @@HOLD@@
@@ -32,5 +36,5 @@ CONSTANTS
 INIT Init
 NEXT Next
 VIEW view
-INVARIANTS TypeOK Prefix InOrderKnown NoSpontaneousEndKnown CompleteKnown IndependentKnown ForgetImpliesClosed
+INVARIANTS TypeOK Prefix InOrderKnown NoSpontaneousEndKnown CompleteKnown IndependentKnown ForgetImpliesClosed NoBusyLoop
 CHECK_DEADLOCK FALSE
